@@ -14,7 +14,7 @@ import (
 
 var c15Profile = &kvh.GenProfile{
 	Weights: map[string]int{
-		"put": 40, "del": 12, "get": 12, "batch": 22, "merge": 2, "reopen": 3, "listkeys": 2, "fold": 2, "sync": 1,
+		"put": 40, "del": 12, "get": 12, "batch": 22, "merge": 2, "reopen": 3, "listkeys": 2, "fold": 2, "sync": 1, "tear": 2,
 	},
 	MaxBatchOps: 8,
 	Big:         true,
